@@ -81,9 +81,16 @@ def _key(fn):
 
 def lookup(fn):
     try:
-        return _MODELS.get(fn)
+        m = _MODELS.get(fn)
     except TypeError:
         return None
+    if m is None and getattr(fn, "__func__", None) is not None:
+        # bound method of a concrete object: model registered on the function
+        m0 = _MODELS.get(fn.__func__)
+        if m0 is not None:
+            slf = fn.__self__
+            return lambda interp, *a, **k: m0(interp, slf, *a, **k)
+    return m
 
 
 def is_pure(fn):
@@ -1668,3 +1675,52 @@ def divmod_sym(ctx, a, b):
     ctx.assume(z3.If(b > 0, z3.And(r >= 0, r < b), z3.And(r <= 0, r > b)))
     store[key] = (wrap(q), wrap(r))
     return store[key]
+
+
+import pathlib as _pathlib   # noqa: E402
+
+
+@model(_pathlib.Path.exists)
+def _path_exists(interp, path, **kw):
+    """P-EXISTS: whether a path exists is an unknown of the environment"""
+    axiom("P-EXISTS (file system state is unconstrained)")
+    store = interp.ctx.__dict__.setdefault("_exists", {})
+    key = str(path)
+    if key not in store:
+        store[key] = interp.ctx.bool("exists_" + key.replace("/", "_"))
+    return store[key]
+
+
+@model(str.__eq__)
+def _str_eq(interp, a, b):
+    if isinstance(b, (str, SStr)) and isinstance(a, (str, SStr)):
+        return compare(interp, "Eq", a, b)
+    return NotImplemented
+
+
+@model(str.startswith)
+def _str_startswith(interp, a, b, *rest):
+    eng = _engine()
+    if rest:
+        raise eng.Unsupported("startswith with offsets")
+    if not isinstance(b, (str, SStr, tuple)):
+        raise eng.PyRaise(TypeError, ("startswith first arg must be str or a tuple of str",))
+    if isinstance(b, tuple):
+        raise eng.Unsupported("startswith with a tuple")
+    if isinstance(a, str) and isinstance(b, str):
+        return a.startswith(b)
+    return wrap(z3.PrefixOf(to_z3(b), to_z3(a)))
+
+
+STR_METHODS["startswith"] = lambda interp, a, b, *r: _str_startswith(interp, a, b, *r)
+STR_METHODS["endswith"] = lambda interp, a, b: wrap(z3.SuffixOf(to_z3(b), to_z3(a)))
+
+
+@model(str.__contains__)
+def _str_contains(interp, a, b):
+    eng = _engine()
+    if not isinstance(b, (str, SStr)):
+        raise eng.PyRaise(TypeError, ("'in <string>' requires string as left operand",))
+    if isinstance(a, str) and isinstance(b, str):
+        return b in a
+    return wrap(z3.Contains(to_z3(a), to_z3(b)))
